@@ -25,6 +25,7 @@ type c04Case struct {
 	Source string `json:"source"` // var | obj
 	Storm  bool   `json:"storm"`
 	Reps   int    `json:"reps"`
+	Funnel bool   `json:"funnel,omitempty"` // the tokens are merged into ONE incoming flow of the gateway (fork -> merging exclusive gateway -> X)
 }
 
 // expected branch: index into the outgoing list, -1 = none (error)
@@ -58,6 +59,14 @@ func c04Graph(c *c04Case) (*gen.Graph, []string) {
 	x := g.Add(gen.Xor, "X", "")
 	if c.Tokens == 1 {
 		g.Connect(s, x, nil)
+	} else if c.Funnel {
+		f := g.Add(gen.And, "fork", "")
+		m := g.Add(gen.Xor, "M", "")
+		g.Connect(s, f, nil)
+		for i := 0; i < c.Tokens; i++ {
+			g.Connect(f, m, nil)
+		}
+		g.Connect(m, x, nil)
 	} else {
 		f := g.Add(gen.And, "fork", "")
 		g.Connect(s, f, nil)
@@ -115,6 +124,25 @@ func c04Cases(tier string, seed uint64) []fw.Case {
 			}
 		}
 	}
+	// many tokens over ONE incoming flow (more than the gateway's mailbox holds)
+	for k := 1; k <= 2; k++ {
+		for def := -1; def <= k; def++ {
+			for truth := 0; truth < 1<<k; truth++ {
+				for _, tokens := range []int{4, 8} {
+					c := c04Case{K: k, DefPos: def, Truth: truth, Tokens: tokens, Lang: "expr", Source: "var", Funnel: true}
+					c.Name = fmt.Sprintf("funnel-k%d-def%d-t%d-tok%d", k, def, truth, tokens)
+					cs = append(cs, fw.MkCase("stepwise", &c))
+					cc := c
+					cc.Storm = true
+					cc.Reps = 5
+					if tier == "thorough" {
+						cc.Reps = 40
+					}
+					cs = append(cs, fw.MkCase("storm", &cc))
+				}
+			}
+		}
+	}
 	return fw.Number(cs)
 }
 
@@ -126,6 +154,9 @@ func c04Run(c *c04Case, env *fw.Env, v *fw.V) {
 		return
 	}
 	cls := fmt.Sprintf("%s-%s", c.Lang, c.Source)
+	if c.Funnel {
+		cls += "-funnel"
+	}
 	o := drive.Opts{ExtraSubs: 1}
 	vals := map[string]any{}
 	for i := 0; i < c.K; i++ {
